@@ -5,9 +5,10 @@
     unfound pairs predicted negative, label-column totals = number of admissible pairs,
     lower id on the left, prediction errors exact, derived rates in closed form.
  T  translators/c15_rates.py regenerates the arithmetic tree of every derived-rate column from
-    the final SELECT that /repo emits; each tree is compared (inside Coq, on a 4^4 grid of
-    counts, exact rationals) with the documented definition `rate_defs`; integer divisions
-    are flagged statically.
+    the final SELECT that /repo emits; each of the 16 trees must BE the documented tree of
+    `rate_defs` (aexp_eqb, decided in Coq; C15_rate_tree_equality_is_identity and
+    C15_rates_by_definition then speak about the SQL for every row) and, as a semantic fallback,
+    agree with it on a 4^4 grid of counts; integer divisions are flagged statically.
  X  histories on ONE linker: real accuracy_analysis_from_labels_table / _column
     (output_type="table") and prediction_errors_from_labels_table / _column, then a change of
     the model (no invalidate_cache), then the calls again - on DuckDB and SQLite.  Every call is
@@ -58,17 +59,27 @@ def translator_stage(ctx: Ctx):
     if not ctx.obligation("every documented rate column is emitted", set(X.RATE_NAMES) <= have, str(sorted(have))):
         broken.append("missing rate columns: " + str(sorted(set(X.RATE_NAMES) - have)))
     terms = [f"({coq_string(n)}, {t})" for n, t in out]
+    # (1) the SQL's tree IS the documented tree (C15_rate_tree_equality_is_identity lifts this to all rows)
+    runner_eq = ("fun ne : String.string * aexp => match lookup_rate (fst ne) rate_defs with "
+                 "Some d => aexp_eqb (snd ne) d | None => false end")
+    bad_eq, errs = ctx.eval_cases("C15_rates_eq", T_HEADER, terms, runner_eq, shard=50)
+    # (2) semantic fallback on a grid (tells a harmless reshaping from a changed formula)
     runner = ("fun ne : String.string * aexp => match lookup_rate (fst ne) rate_defs with "
               "Some d => aexp_agree 4 (snd ne) d | None => false end")
-    bad, errs = ctx.eval_cases("C15_rates", T_HEADER, terms, runner, shard=50)
+    bad, errs2 = ctx.eval_cases("C15_rates", T_HEADER, terms, runner, shard=50)
+    errs = errs + errs2
     for e in errs:
         ctx.obligation("rate obligations evaluate", False, e)
         broken.append("rate obligations did not evaluate")
-    ctx.obligations += len(terms)
-    ctx.discharged += len(terms) - len(bad) if not errs else 0
+    ctx.obligations += 2 * len(terms)
+    ctx.discharged += (2 * len(terms) - len(bad) - len(bad_eq)) if not errs else 0
     for i in bad:
         broken.append(f"derived rate {out[i][0]} differs from its documented definition: {out[i][1]}")
         ctx.log("rate obligation failed:", out[i][0])
+    for i in bad_eq:
+        if i not in bad:
+            broken.append(f"the SQL tree of derived rate {out[i][0]} is no longer the documented tree (same values on the grid): {out[i][1]}")
+            ctx.log("rate tree reshaped:", out[i][0])
     ctx.cov["rate_obligations"] = len(terms)
     ctx.cov["translated_sources"] = {p: git_blob(REPO / p) for p in ["splink/internals/accuracy.py"]}
     return broken
